@@ -94,7 +94,9 @@ Lemma fetch_sim x now srv e x' g :
   /\ x_cert x' = x_cert x /\ x_period x' = x_period x
   /\ (mdx_inv x -> mdx_inv x') /\ g <> RRaise.
 Proof.
-  intros Hn. unfold mdx_fetch. cbn [f_mdq f_group cur]. unfold refresh, mdq_fresh.
+  intros Hn. unfold mdx_fetch. cbn [f_mdq f_group cur].
+  change (expiry cur now (x_period x)) with (now + x_period x)%Z.   (* the code now: no zone enters *)
+  unfold refresh, mdq_fresh.
   destruct (ask srv e) as [|p sg] eqn:Ea.
   { intros H; inversion H; subst. cbn. repeat split; auto; discriminate. }
   assert (Hexp : forall t, abs_cache {| x_ents := x_ents x; x_exp := upsert e t (x_exp x); x_cert := x_cert x; x_period := x_period x |}
